@@ -27,6 +27,7 @@ import (
 
 type scenario13 struct {
 	Name    string
+	Vary    bool   // every goroutine's table has another length (the selector text is the same)
 	Shared  bool   // one document object read by every goroutine
 	Fresh   bool   // selector texts no goroutine has used before (cache insertions)
 	SQL     string // %s = table name
@@ -48,13 +49,22 @@ var scenarios13 = []scenario13{
 	{Name: "shared-wrapped", Shared: true, SQL: "SELECT a FROM root.%s WHERE a >= 2", Options: []string{"wrapped"}},
 	{Name: "separate-paralleljoin", SQL: "SELECT * FROM %s x PARALLEL JOIN u y ON x.a <= y.c"},
 	{Name: "shared-paralleljoin", Shared: true, SQL: "SELECT * FROM %s x PARALLEL LEFT HASH_JOIN u y ON x.a = y.c"},
+	{Name: "separate-openrange", Vary: true, SQL: "SELECT a FROM `%s[(1:end)]`"},
+	{Name: "separate-openrange-begin", Vary: true, SQL: "SELECT a FROM `%s[(begin:2)]` WHERE a > 0"},
+	{Name: "separate-cte-path", SQL: "WITH c AS (SELECT a, n FROM %s) SELECT * FROM `c[0].n`"},
+	{Name: "shared-cte-path", Shared: true, SQL: "WITH c AS (SELECT a, n FROM %s) SELECT p FROM `c[each].n[(0:1)]`"},
+	{Name: "separate-subquery-async", SQL: "SELECT a, (SELECT ASYNC.slow(p) AS v FROM n) AS r FROM %s"},
+	{Name: "shared-subquery-async", Shared: true, SQL: "SELECT a, (SELECT ASYNC.slow(p) AS v, SPINASYNC.slow(p) FROM n) AS r FROM %s"},
+	{Name: "separate-derived-async", SQL: "SELECT * FROM (SELECT a, ASYNC.slow(a) AS v FROM %s) x"},
 	{Name: "separate-async", SQL: "SELECT a, ASYNC.slow(a) AS v FROM %s"},
 	{Name: "shared-async", Shared: true, SQL: "SELECT a, ASYNC.slow(a) AS v, SPINASYNC.slow(a) FROM %s"},
 }
 
-func doc13(table string) map[string]any {
+func doc13(table string) map[string]any { return doc13n(table, 6) }
+
+func doc13n(table string, n int) map[string]any {
 	rows := []any{}
-	for i := 1; i <= 6; i++ {
+	for i := 1; i <= n; i++ {
 		nested := []any{}
 		for p := 1; p <= 1+i%3; p++ {
 			nested = append(nested, map[string]any{"p": float64(p * 2)})
@@ -113,6 +123,19 @@ func RunScenario13(name string, n, iters int) int {
 				var want []any
 				if sc.Shared {
 					doc, want = shared, wantShared
+				} else if sc.Vary {
+					// same selector text, another array length in every goroutine: the expectation is written
+					// down here, not obtained from the library (whose state an earlier evaluation may have bent)
+					n := 3 + (g+i)%5
+					doc = doc13n(table, n)
+					want = []any{}
+					lo, hi := 1, n
+					if strings.Contains(sc.SQL, "begin:2") {
+						lo, hi = 0, 2
+					}
+					for k := lo; k < hi; k++ {
+						want = append(want, map[string]any{"a": float64(k + 1)})
+					}
 				} else {
 					doc = doc13(table)
 					want = wantShared
